@@ -418,31 +418,17 @@ def r09d(chk, rid='R09.d'):
             else:
                 chk.ob(rid, SHEET, 'CSSStyleSheet.insertRule', f'{bn}: {d} between insertion and parent link cannot raise', False,
                        'a DOM exception raised here leaves the rule in the list without a parent link')
-    # deleteRule detaches
-    for rel, q, attr in ((SHEET, 'CSSStyleSheet.deleteRule', '_parentStyleSheet'), (RULE, 'CSSRuleRules.deleteRule', '_parentRule')):
-        f = chk.repo.fn(rel, q)
-        g2 = cfgmod.CFG(f)
-        dels = [n for n in g2.nodes if n.kind == 'stmt' and isinstance(n.stmt, ast.Delete) and '_cssRules[' in text(n.stmt)]
-        det = [n for n in g2.nodes if n.kind == 'stmt' and isinstance(n.stmt, ast.Assign) and text(n.stmt.targets[0]).endswith('.' + attr) and text(n.stmt.value) == 'None']
-        if len(dels) != 1:
-            raise AnalysisError(f'{q}: delete statement not found')
-        ok = bool(det)
-        if ok:
-            okp, path = g2.all_paths_pass([ENTRY], lambda n: n in det, targets=[dels[0].id])
-            ok = okp
-        chk.ob(rid, rel, q, f'`{text(dels[0].stmt)}` is preceded by detaching the rule ({attr} = None)', ok, 'a removed rule keeps naming its former container')
+    # deleteRule detaches: decided by evaluation (sheet level: shared with R15.b; nested lists: here)
+    from .c15 import eval_delete_rule
+
+    eval_delete_rule(chk, rid)
+    _eval_nested_list_edits(chk, rid)
     # setters adopt
     for rel, q, attr, val in ((SHEET, 'CSSStyleSheet.cssRules', '_parentStyleSheet', 'self'), (RULE, 'CSSRuleRules._setCssRules', '_parentRule', 'self')):
         m = chk.repo.mod(rel)
         f = m.index()[q][-1]
         ok = any(isinstance(x, ast.For) and any(isinstance(s, ast.Assign) and text(s.targets[0]) == f'rule.{attr}' and text(s.value) == val for s in x.body) for x in ast.walk(f))
         chk.ob(rid, rel, q, f'every rule of a newly set list gets {attr} = {val}', ok, 'adopted rules keep their old parent')
-    f = chk.repo.fn(RULE, 'CSSRuleRules._finishInsertRule')
-    body = [text(s) for s in f.body]
-    ok = 'rule._parentRule = self' in body and any('self._cssRules.insert(index, rule)' in b for b in body)
-    chk.ob(rid, RULE, 'CSSRuleRules._finishInsertRule', 'links the rule to this rule and inserts it', ok, str(body), shape=True)
-    ok2 = 'rule._parentStyleSheet = None' in body
-    chk.ob(rid, RULE, 'CSSRuleRules._finishInsertRule', 'a nested rule has no direct sheet link (parentStyleSheet is derived from the parent rule)', ok2, str(body), shape=True)
 
 
 def _paths_without(g, ins, target):
@@ -671,3 +657,54 @@ def r09g(chk, rid='R09.g'):
         chk.ob(rid, SHEET, 'CSSStyleSheet.insertRule', f'insert {newkind} ({"ordered add" if in_order else "positional"}): order and parent links preserved', False,
                f'from {list(start)}, index={index}: ' + '; '.join(problems))
     chk.ob(rid, SHEET, 'CSSStyleSheet.insertRule', f'all {len(results)} (rule list, new rule, index, mode) cases preserve the order and the parent links', not bad, f'{len(bad)} cases fail')
+
+
+
+def _eval_nested_list_edits(chk, rid):
+    """CSSRuleRules.deleteRule and _finishInsertRule evaluated on their syntax trees over a model list."""
+    from sa.absint import Evaluator, Obj, Raised, Record
+
+    m = chk.repo.mod(RULE)
+
+    class RuleM(Obj):
+        pass
+
+    class Rules(list):
+        @property
+        def length(self):
+            return len(self)
+
+    def build():
+        rs = Rules(RuleM(tag=t) for t in ('a', 'b', 'c'))
+        me = Record(_cssRules=rs, cssRules=rs, _checkReadonly=lambda: None, __class__=Record(__name__='CSSMediaRule'))
+        for r in rs:
+            r._parentRule = me
+            r._parentStyleSheet = None
+        return me, rs
+
+    intr = {'CSSRule': RuleM, 'xml': Record(dom=Record(IndexSizeErr='IndexSizeErr'))}
+    fn = m.get('CSSRuleRules.deleteRule')
+    bad = []
+    n = 0
+    for a in list(range(-4, 4)) + ['obj', 'foreign']:
+        me, rs = build()
+        arg = rs[1] if a == 'obj' else RuleM(tag='x') if a == 'foreign' else a
+        idx = 1 if a == 'obj' else None if a == 'foreign' else (a if -3 <= a < 3 else None)
+        victim = rs[idx] if idx is not None else None
+        res = Evaluator(fn, intrinsics=intr, model_types=(Rules,), module=m, cls='CSSRuleRules').run(self=me, index=arg)
+        n += 1
+        tags = [r.tag for r in rs]
+        if idx is None:
+            ok = isinstance(res, Raised) and res.kind == 'IndexSizeErr' and tags == ['a', 'b', 'c'] and all(r._parentRule is me for r in rs)
+        else:
+            ok = not isinstance(res, Raised) and victim not in rs and len(rs) == 2 and victim._parentRule is None and all(r._parentRule is me for r in rs)
+        if not ok:
+            bad.append(f'deleteRule({a!r}): {res!r}, list {tags}, parent of the addressed rule: {getattr(victim, "_parentRule", None) is not None}')
+    chk.ob(rid, RULE, 'CSSRuleRules.deleteRule', f'all {n} deletions from a nested list: the addressed rule goes and names no parent rule, an invalid index or a foreign rule is refused and changes nothing', not bad, ' | '.join(bad[:2]))
+    fi = m.get('CSSRuleRules._finishInsertRule')
+    for index in (0, 1, 3):
+        me, rs = build()
+        new = RuleM(tag='new', _parentRule=None, _parentStyleSheet='some sheet')
+        res = Evaluator(fi, model_types=(Rules,), module=m, cls='CSSRuleRules').run(self=me, rule=new, index=index)
+        ok = res == index and rs[index] is new and new._parentRule is me and new._parentStyleSheet is None and len(rs) == 4
+        chk.ob(rid, RULE, 'CSSRuleRules._finishInsertRule', f'insert at {index}: the rule lands there, names this rule as parent and has no direct sheet link', ok, f'returns {res!r}, list {[r.tag for r in rs]}, parent set: {new._parentRule is me}, sheet link: {new._parentStyleSheet!r}')
